@@ -105,9 +105,13 @@ def check_pair(vals, mode):
     # '-va' modes: a method whose implied self is collected by its *args (def m(*va)): no explicit self parameter
     self_in_va = mode.endswith('-va')
     mode = mode.replace('-va', '')
-    exec(_mk_src('m', vals['i_req'], vals['i_pos'], vals['i_va'], vals['i_kw'], self_=(mode != 'attr' and not self_in_va), kwonly=vals.get('i_ko', False)), ns2)
+    exec(_mk_src('m', vals['i_req'], vals['i_pos'], vals['i_va'], vals['i_kw'], self_=(mode not in ('attr', 'static', 'static-class') and not self_in_va), kwonly=vals.get('i_ko', False)), ns2)
     impl = ns2['m']
-    if mode == 'attr':       # plain function stored on the instance
+    if mode in ('static', 'static-class'):      # @staticmethod: no self, neither through the instance nor through the class
+        K = implementer(I)(type('K', (object,), {'m': staticmethod(impl)}))
+        target = K().m
+        verifier, subject = (verifyObject, K()) if mode == 'static' else (verifyClass, K)
+    elif mode == 'attr':       # plain function stored on the instance
         K = implementer(I)(type('K', (object,), {}))
         cand = K()
         cand.m = impl
@@ -295,18 +299,18 @@ def make_e_pairs(params, part, nparts):
             for m in ('attr', 'method', 'class'):
                 check_pair(vals, m)
             return
-        c_mode = pick(mode, 5)
+        c_mode = pick(mode, 7)
         c_rreq = pick(r_req, MAXR + 1)
-        assume((c_mode * (MAXR + 1) + c_rreq) % nparts == part)
         c_ropt = pick(r_opt, MAXO + 1)
+        assume(((c_mode * (MAXR + 1) + c_rreq) * (MAXO + 1) + c_ropt) % nparts == part)
         c_rf = pick(r_flags, 8)
         c_ireq = pick(i_req, MAXR + 1)
         c_iopt = pick(i_opt, MAXO + 1)
         c_if = pick(i_flags, 8)
         vals = dict(r_req=c_rreq, r_pos=c_rreq + c_ropt, r_va=bool(c_rf & 1), r_kw=bool(c_rf & 2), r_ko=bool(c_rf & 4),
                     i_req=c_ireq, i_pos=c_ireq + c_iopt, i_va=bool(c_if & 1), i_kw=bool(c_if & 2), i_ko=bool(c_if & 4))
-        m = ('attr', 'method', 'class', 'method-va', 'class-va')[c_mode]
-        assume(c_mode < 3 or (vals['i_va'] and vals['i_pos'] == 0))
+        m = ('attr', 'method', 'class', 'method-va', 'class-va', 'static', 'static-class')[c_mode]
+        assume(c_mode not in (3, 4) or (vals['i_va'] and vals['i_pos'] == 0))
         reached((c_mode, c_rreq, c_ropt, c_rf, c_ireq, c_iopt, c_if), dict(mode=m, **vals))
         native(check_pair, vals, m)
     return h
@@ -594,10 +598,10 @@ HARNESSES = [
             oracle='forall k>=0, kw: admits_required(k,kw) -> binds_implemented(k,kw)',
             assumptions=['getSignatureInfo invariants: 0<=len(required)<=len(positional); varargs/kwargs are None or a non-empty str']),
     Harness('e_pairs', make_e_pairs, kind='E', impls=('py',),
-            tiers=dict(quick=dict(budget_s=120, parts=9, params=dict(max_req=2, max_opt=2)),
-                       thorough=dict(budget_s=900, parts=12, params=dict(max_req=3, max_opt=3))),
+            tiers=dict(quick=dict(budget_s=150, parts=16, params=dict(max_req=2, max_opt=2)),
+                       thorough=dict(budget_s=900, parts=16, params=dict(max_req=3, max_opt=3))),
             encoded=_ENC,
-            bounds='required<=2(3), optional<=2(3), *args, **kw, a defaulted keyword-only parameter on both sides (5184 pairs quick) x {function attribute, bound method, verifyClass, and methods whose self is collected by *args}',
+            bounds='required<=2(3), optional<=2(3), *args, **kw, a defaulted keyword-only parameter on both sides (5184 pairs quick) x {function attribute, bound method, verifyClass, methods whose self is collected by *args, @staticmethod through the instance and through verifyClass}',
             outside='required keyword-only and positional-only parameters, builtins, parameter names',
             oracle='inspect.signature(impl).bind on every admitted call shape (arities req..pos, +1/+4 with *args, one foreign keyword with **kw)'),
     Harness('e_errors', make_e_errors, kind='E', impls=('py',),
